@@ -106,6 +106,35 @@ func cmdCheck(args []string) {
 			obls = append(obls, o)
 		}
 	}
+	// 1b. contract closure: a caller is checked against its callee's contract, not its body, so the property also rests
+	// on every verified callee contract its functions use; those callees are verified in the same run (transitively)
+	{
+		done := map[string]bool{}
+		for _, fr := range frs {
+			done[fr.Key] = true
+		}
+		for i := 0; i < len(frs); i++ {
+			for _, u := range frs[i].Used {
+				if !strings.HasPrefix(u, "USES-CONTRACT:") {
+					continue
+				}
+				k := strings.TrimPrefix(u, "USES-CONTRACT:")
+				con := P.contracts.ByKey[k]
+				if con == nil || done[k] || con.Kind != "func" || con.NoBody {
+					continue
+				}
+				done[k] = true
+				fr := safeGenVC(P, con)
+				frs = append(frs, fr)
+				for _, o := range fr.Obls {
+					if m := propTag.FindStringSubmatch(o.Label); m != nil && !hasProp(strings.Split(m[1], ","), prop) {
+						continue
+					}
+					obls = append(obls, o)
+				}
+			}
+		}
+	}
 	// 2. lemmas
 	lemmas := P.lemmaObligations(prop)
 	obls = append(obls, lemmas...)
@@ -295,10 +324,16 @@ func cmdCheck(args []string) {
 		assume[a] = true
 	}
 	for _, fr := range frs {
-		fnDesc = append(fnDesc, map[string]interface{}{"function": fr.Key, "at": fr.Pos, "obligations": len(fr.Obls), "inlined_callees": fr.Inlined, "assumptions_used": fr.Used, "undecided": fr.Errs})
+		var au, vc []string
 		for _, u := range fr.Used {
-			assume[u] = true
+			if strings.HasPrefix(u, "USES-CONTRACT:") {
+				vc = append(vc, strings.TrimPrefix(u, "USES-CONTRACT:"))
+			} else {
+				au = append(au, u)
+				assume[u] = true
+			}
 		}
+		fnDesc = append(fnDesc, map[string]interface{}{"function": fr.Key, "at": fr.Pos, "obligations": len(fr.Obls), "inlined_callees": fr.Inlined, "assumptions_used": au, "callee_contracts_verified_in_this_run": vc, "undecided": fr.Errs})
 	}
 	assumptions := []string{}
 	for a := range assume {
